@@ -12,6 +12,7 @@ import (
 // permission decision is the common name of the verified client certificate and nothing else the
 // client can choose (headers): a request is served only for the configured client name.
 func IdentityDecidesThroughTheChain() {
+	vsym.ForbidCrash() // a panic in an interceptor or handler kills the daemon
 	perms := map[string][]*checker.Permissions{"client1": {{Path: "W/a", Operations: []string{"Sign", "Access account"}}}}
 	start(perms)
 	cn := []string{"client1", "Client1", "client1 ", "stranger", "", "signer-test02"}[vsym.Choose("cn", 6)]
